@@ -46,16 +46,45 @@ theorem divLimb_spec (w d : Nat) (hd0 : 0 < d) (hd : d ≤ 2 ^ w) : ∀ (xs : Li
     have e3 : 2 ^ w * (toNat w q * d + r) = 2 ^ w * (toNat w q * d) + r * 2 ^ w := by ring
     linarith [hdm, e1, e2, e3]
 
-/-- reduce() by a single non-zero limb on a canonical dividend: magnitudes of quotient and remainder. -/
+theorem isZero_decide {w : Nat} {l : List Nat} (h1 : LimbsOk w l) (h2 : NoLeadingZero l) :
+    isZero { sign := false, limbs := l } = decide (toNat w l = 0) := by
+  have hc : Canon w { sign := false, limbs := l } := ⟨h1, h2⟩
+  by_cases h0 : toNat w l = 0
+  · simp [h0, (isZero_iff_toNat hc).mpr h0]
+  · simp [h0, (isZero_false_iff hc).mpr h0]
+
+theorem canon_strip_single {w v : Nat} (hv : v < 2 ^ w) :
+    LimbsOk w (stripTop [v]) ∧ NoLeadingZero (stripTop [v]) ∧ toNat w (stripTop [v]) = v ∧ block (stripTop [v]) 0 = v := by
+  by_cases h0 : v = 0
+  · simp [stripTop, h0, LimbsOk, NoLeadingZero, toNat, block]
+  · simp [stripTop, h0, LimbsOk, NoLeadingZero, toNat, block, hv]
+
+/-- reduce() by a single non-zero limb on a canonical dividend: quotient and remainder with their signs
+    (quotient negative iff the signs differ, remainder follows the dividend, zero results carry no sign). -/
 theorem reduce_single_limb (w : Nat) (a b : EI) (d : Nat) (ha : Canon w a) (hb : b.limbs = [d]) (hd0 : 0 < d)
     (hd : d < 2 ^ w) :
     toNat w (reduce w a b).q.limbs = toNat w a.limbs / d ∧
     block (reduce w a b).r.limbs 0 = toNat w a.limbs % d ∧
     toNat w (reduce w a b).r.limbs = toNat w a.limbs % d ∧
-    Canon w (reduce w a b).q ∧ (reduce w a b).r.sign = false ∧
-    ((reduce w a b).path = .zero ∨ (reduce w a b).path = .native ∨ (reduce w a b).path = .single) ∧
-    ((reduce w a b).q.sign = false ∨ (reduce w a b).q.sign = (a.sign != b.sign)) := by
+    Canon w (reduce w a b).q ∧ Canon w (reduce w a b).r ∧
+    (reduce w a b).q.sign = ((a.sign != b.sign) && !decide (toNat w a.limbs / d = 0)) ∧
+    (reduce w a b).r.sign = (a.sign && !decide (toNat w a.limbs % d = 0)) ∧
+    ((reduce w a b).path = .zero ∨ (reduce w a b).path = .native ∨ (reduce w a b).path = .single) := by
   have hzb : isZero b = false := by simp [isZero, hb]; omega
+  -- shape of the two results once their limb vectors are known
+  have hshape : ∀ (lq lr : List Nat) (p : DivPath), LimbsOk w lq → NoLeadingZero lq → LimbsOk w lr → NoLeadingZero lr →
+      toNat w lq = toNat w a.limbs / d → toNat w lr = toNat w a.limbs % d → block lr 0 = toNat w a.limbs % d →
+      (p = .zero ∨ p = .native ∨ p = .single) →
+      let res : DivResult := { q := signedQ a b lq, r := signedR a lr, path := p }
+      toNat w res.q.limbs = toNat w a.limbs / d ∧ block res.r.limbs 0 = toNat w a.limbs % d ∧
+      toNat w res.r.limbs = toNat w a.limbs % d ∧ Canon w res.q ∧ Canon w res.r ∧
+      res.q.sign = ((a.sign != b.sign) && !decide (toNat w a.limbs / d = 0)) ∧
+      res.r.sign = (a.sign && !decide (toNat w a.limbs % d = 0)) ∧
+      (res.path = .zero ∨ res.path = .native ∨ res.path = .single) := by
+    intro lq lr p h1 h2 h3 h4 h5 h6 h7 h8
+    refine ⟨h5, h7, h6, ⟨h1, h2⟩, ⟨h3, h4⟩, ?_, ?_, h8⟩
+    · simp only [signedQ]; rw [isZero_decide h1 h2, h5]
+    · simp only [signedR]; rw [isZero_decide h3 h4, h6]
   unfold reduce
   simp only [hzb, Bool.false_eq_true, if_false]
   by_cases hza : isZero a = true
@@ -71,20 +100,32 @@ theorem reduce_single_limb (w : Nat) (a b : EI) (d : Nat) (ha : Canon w a) (hb :
         · exact ⟨v, rfl⟩
         · rw [hl] at h1; simp at h1
       have ha0lt : a0 < 2 ^ w := ha.1 a0 (by simp [ha0])
-      simp only [ha0, hb, block, List.getD_cons_zero, toNat, Nat.mul_zero, Nat.add_zero]
+      have hA : toNat w a.limbs = a0 := by simp [ha0, toNat]
       have hqlt : a0 / d < 2 ^ w := Nat.lt_of_le_of_lt (Nat.div_le_self _ _) ha0lt
-      by_cases hq0 : a0 / d = 0 <;> by_cases hr0 : a0 % d = 0 <;>
-        simp [hq0, hr0, toNat, NoLeadingZero, LimbsOk, Canon, hqlt]
+      have hrlt : a0 % d < 2 ^ w := Nat.lt_trans (Nat.mod_lt _ hd0) hd
+      have hblk : block a.limbs 0 = a0 := by simp [ha0, block]
+      have hblkb : block b.limbs 0 = d := by simp [hb, block]
+      simp only [hblk, hblkb]
+      have eq1 : (if a0 / d = 0 then ([] : List Nat) else [a0 / d]) = stripTop [a0 / d] := by
+        by_cases h0 : a0 / d = 0 <;> simp [stripTop, h0]
+      have eq2 : (if a0 % d = 0 then ([] : List Nat) else [a0 % d]) = stripTop [a0 % d] := by
+        by_cases h0 : a0 % d = 0 <;> simp [stripTop, h0]
+      rw [eq1, eq2]
+      obtain ⟨q1, q2, q3, _⟩ := canon_strip_single (w := w) hqlt
+      obtain ⟨r1, r2, r3, r4⟩ := canon_strip_single (w := w) hrlt
+      obtain ⟨g1, g2, g3, g4, g5, g6, g7, _⟩ :=
+        hshape _ _ DivPath.native q1 q2 r1 r2 (by rw [q3, hA]) (by rw [r3, hA]) (by rw [r4, hA]) (Or.inr (Or.inl rfl))
+      exact ⟨g1, g2, g3, g4, g5, g6, g7, by simp⟩
     · simp only [h1, if_false]
       have hlen : a.limbs.length ≥ 2 := by
         have : 0 < a.limbs.length := List.length_pos_iff.mpr hane
         have hb1 : b.limbs.length = 1 := by simp [hb]
         by_contra hc
         exact h1 ⟨by omega, hb1⟩
-      have hlt : ltE a b = false := by
-        unfold ltE
+      have hlt : (cmpMag a.limbs b.limbs == .lt) = false := by
+        unfold cmpMag
         have hb1 : b.limbs.length = 1 := by simp [hb]
-        have h2 : ¬ a.limbs.length < b.limbs.length := by omega
+        have h2 : a.limbs.length ≠ b.limbs.length := by omega
         have h3 : a.limbs.length > b.limbs.length := by omega
         simp [h2, h3]
       simp only [hlt, Bool.false_eq_true, if_false]
@@ -96,15 +137,14 @@ theorem reduce_single_limb (w : Nat) (a b : EI) (d : Nat) (ha : Canon w a) (hb :
       have hblk : block b.limbs 0 = d := by simp [hb, block]
       rw [hblk]
       obtain ⟨s1, s2, s3, _⟩ := divLimb_spec w d hd0 (Nat.le_of_lt hd) a.limbs ha.1
-      have hcert := Nat.div_add_mod (toNat w a.limbs) d
-      have hq : toNat w (divLimb w d a.limbs).1 = toNat w a.limbs / d := by
-        exact (divmod_cert hd0 s1 s2).1.symm
-      have hr : (divLimb w d a.limbs).2 = toNat w a.limbs % d := by
-        exact (divmod_cert hd0 s1 s2).2.symm
+      have hq : toNat w (divLimb w d a.limbs).1 = toNat w a.limbs / d := (divmod_cert hd0 s1 s2).1.symm
+      have hr : (divLimb w d a.limbs).2 = toNat w a.limbs % d := (divmod_cert hd0 s1 s2).2.symm
       have hrlt : (divLimb w d a.limbs).2 < 2 ^ w := by omega
-      refine ⟨?_, ?_, ?_, ⟨limbsOk_stripTop s3, noLeadingZero_stripTop _⟩, trivial, Or.inr (Or.inr trivial), Or.inl trivial⟩
-      · rw [toNat_stripTop, hq]
-      · rw [hr] at hrlt; simp [block, hr, Nat.mod_eq_of_lt hrlt]
-      · rw [hr] at hrlt; simp [toNat, hr, Nat.mod_eq_of_lt hrlt]
+      rw [Nat.mod_eq_of_lt hrlt]
+      obtain ⟨r1, r2, r3, r4⟩ := canon_strip_single (w := w) hrlt
+      obtain ⟨g1, g2, g3, g4, g5, g6, g7, _⟩ :=
+        hshape _ _ DivPath.single (limbsOk_stripTop s3) (noLeadingZero_stripTop _) r1 r2 (by rw [toNat_stripTop, hq])
+          (by rw [r3, hr]) (by rw [r4, hr]) (Or.inr (Or.inr rfl))
+      exact ⟨g1, g2, g3, g4, g5, g6, g7, by simp⟩
 
 end UVerif.EInt
